@@ -6,6 +6,7 @@ import (
 	"fmt"
 	"html"
 	"io/fs"
+	"math"
 	"reflect"
 	"regexp"
 	"strconv"
@@ -727,6 +728,18 @@ func fitsInteger(val reflect.Value, t reflect.Type) bool {
 	zero := reflect.Zero(t)
 	signedVal := val.Kind() >= reflect.Int && val.Kind() <= reflect.Int64
 	unsignedVal := val.Kind() >= reflect.Uint && val.Kind() <= reflect.Uintptr
+	if val.Kind() == reflect.Float32 || val.Kind() == reflect.Float64 {
+		// a float is cut off at the point (2.7 -> 2) when an integer is expected; what is left must
+		// fit the type like an integer argument (300.0 does not fit an int8, -1.5 does not fit a uint)
+		f := math.Trunc(val.Float())
+		switch {
+		case t.Kind() >= reflect.Int && t.Kind() <= reflect.Int64:
+			return f >= -(1<<63) && f < 1<<63 && !zero.OverflowInt(int64(f))
+		case t.Kind() >= reflect.Uint && t.Kind() <= reflect.Uintptr:
+			return f >= 0 && f < 1<<64 && !zero.OverflowUint(uint64(f))
+		}
+		return true
+	}
 	switch {
 	case t.Kind() >= reflect.Int && t.Kind() <= reflect.Int64:
 		if signedVal {
